@@ -321,3 +321,30 @@ def mat_to_tt(ob, d, src):
             ob.fail('core%d_uninterleave' % k, 'value', 'unexpected structure: core ndim %d, TT-SVD core axes %s' % (c.ndim, t.axes))
     check_ttsvd(ob, B, ttv, R, [m * n for m, n in zip(M, N)], d, F0, eps, lambda k: rmax)
     ob.frame()
+
+
+@scenario('C01', 'SVD.contract', 'torchtt._decomposition.SVD', quick=[dict()], replay=None)
+def svd_contract(ob):
+    """SVD(mat) returns (U, S, Vh) of the reduced SVD of mat in BOTH branches (the tall branch factorises mat^T and returns
+    (v^T, s, u^T)): shapes m x k, k, k x n with k = min(m, n); U has orthonormal columns, Vh orthonormal rows; the three factors
+    belong to one SVD record of `mat` (roles U, S, Vh), so that U diag(S) Vh = mat.  This contract is used (instead of the body)
+    by the rounding proofs of order >= 5."""
+    from ttvc import gauge
+    ex = ob.ex
+    m, n = H.sym_sizes(ex, 'm', 1)[0], H.sym_sizes(ex, 'n', 1)[0]
+    A = T.atom_tensor('A', [m, n])
+    U, S, V = ex.call(decomp(ex, 'SVD'), [A])
+    k = z3.If(m <= n, m, n)
+    all_eq(ob, 'U_shape', U.shape, [m, k])
+    all_eq(ob, 'S_shape', S.shape, [k])
+    all_eq(ob, 'V_shape', V.shape, [k, n])
+    ob.prove('U_orthonormal_columns', bool(U.ghost.get('orth_cols')), 'ghost')
+    ob.prove('Vh_orthonormal_rows', bool(V.ghost.get('orth_rows')), 'ghost')
+    recU, recS, recV = U.ghost.get('svd'), S.ghost.get('svd'), V.ghost.get('svd')
+    ok = recU is not None and recS is not None and recV is not None and gauge.base_record(recU) is gauge.base_record(recV) is gauge.base_record(recS)
+    ob.prove('one_record', bool(ok), 'ghost')
+    if ok:
+        ob.prove('roles', U.ghost.get('role') == 'U' and V.ghost.get('role') == 'Vh' and S.ghost.get('role') == 'S', 'ghost')
+        # the record (in the orientation of the returned U) factorises `mat` itself
+        a_of = recU['A'] if recU['A'] is not None else None
+        ob.prove('factorises_the_argument', a_of is A, 'ghost')
